@@ -1,0 +1,12 @@
+//go:build verif
+
+// Verification contracts (property C24, addition; comment-only, read by /verif/govc).
+// DeleteGroups: the request handed to the coordinator carries exactly the list of groups that passed the group_admin
+// check (C24.delete_groups_list_holds_only_permitted_groups says what that list holds), not the client's list.
+
+package main
+
+//@ func (h *handler) Handle$8
+//@   requires h != nil
+//@   at DeleteGroups#1 before assert [C24.delete_groups_forwards_only_the_permitted_list] sameSlice(arg1.Groups, allowed)
+//@   at DeleteGroups#1 before stop
